@@ -1,6 +1,7 @@
 package core
 
 import (
+	"go/constant"
 	"fmt"
 	"go/token"
 	"go/types"
@@ -57,6 +58,7 @@ type Model struct {
 	// Wrappers are functions that, on every path, perform exactly one acquire (or one release)
 	// of a lock derived from one of their parameters; call sites of a wrapper are lock events.
 	Wrappers map[*ssa.Function]LockWrapper
+	HandleCtors map[*ssa.Function]HandleCtor
 	Problems []string
 	// cache layer
 	CacheT    [2]*types.Named // xsyncMap, xsyncMapOf (inner objects)
@@ -136,6 +138,7 @@ func (p *Prog) implementersOf(iface string) []*types.Named {
 func BuildModel(p *Prog) *Model {
 	m := &Model{P: p, Acquire: map[*ssa.Function]bool{}, Release: map[*ssa.Function]bool{}}
 	m.findLockHelpers()
+	m.findHandleCtors()
 	m.inferWrappers()
 	for _, iface := range []string{"Map", "MapOf"} {
 		impl := p.implementersOf(iface)
@@ -155,7 +158,7 @@ func BuildModel(p *Prog) *Model {
 
 func (m *Model) findLockHelpers() {
 	for _, f := range m.P.Funcs {
-		if f.Pkg != m.P.Xsync || len(f.Params) != 1 || f.Signature.Recv() != nil {
+		if f.Pkg != m.P.Xsync || len(f.Params) != 1 {
 			continue
 		}
 		par := f.Params[0]
@@ -171,15 +174,19 @@ func (m *Model) findLockHelpers() {
 				return
 			}
 			op, addr, ok := AtomicOp(c)
-			if !ok || addr != ssa.Value(par) {
+			if !ok || SameWord(addr) != ssa.Value(par) {
 				return
 			}
 			args := c.Common().Args
 			switch op {
 			case "CAS":
 				if len(args) == 3 {
-					if b, ok := args[2].(*ssa.BinOp); ok && b.Op == token.OR && b.X == args[1] {
-						if k, ok := ConstInt(b.Y); ok && k == 1 {
+					if b, ok := args[2].(*ssa.BinOp); ok && b.Op == token.OR && (b.X == args[1] || b.Y == args[1]) {
+						other := b.Y
+						if b.Y == args[1] {
+							other = b.X
+						}
+						if k, ok := ConstInt(other); ok && k == 1 {
 							// find the If consuming this CAS
 							if v, ok := in.(ssa.Value); ok {
 								for _, r := range *v.Referrers() {
@@ -193,10 +200,8 @@ func (m *Model) findLockHelpers() {
 				}
 			case "Store":
 				if len(args) == 2 {
-					if b, ok := args[1].(*ssa.BinOp); ok && b.Op == token.AND_NOT {
-						if k, ok := ConstInt(b.Y); ok && k == 1 {
-							rel = true
-						}
+					if lockBitCleared(args[1]) {
+						rel = true
 					}
 				}
 			}
@@ -226,6 +231,69 @@ func (m *Model) findLockHelpers() {
 			m.Release[f] = true
 		}
 	}
+}
+
+// SameWord strips pointer conversions and calls of identity helpers (a function that returns its only parameter,
+// converted: func (bm *bucketMutex) word() *uint64 { return (*uint64)(bm) }): the result addresses the same word.
+func SameWord(v ssa.Value) ssa.Value {
+	for i := 0; i < 4; i++ {
+		v = StripConv(v)
+		c, ok := v.(*ssa.Call)
+		if !ok {
+			return v
+		}
+		cal := Callee(c)
+		if cal == nil || len(cal.Blocks) != 1 || len(cal.Params) != 1 || len(c.Call.Args) != 1 {
+			return v
+		}
+		ret, ok := cal.Blocks[0].Instrs[len(cal.Blocks[0].Instrs)-1].(*ssa.Return)
+		if !ok || len(ret.Results) != 1 || StripConv(ret.Results[0]) != ssa.Value(cal.Params[0]) {
+			return v
+		}
+		v = c.Call.Args[0]
+	}
+	return v
+}
+
+// lockBitCleared: the value is some word with bit 0 cleared and the other bits kept: v &^ 1, v & ^1 (an even
+// constant mask with all other bits set), v ^ (v & 1), v - (v & 1).
+func lockBitCleared(v ssa.Value) bool {
+	b, ok := v.(*ssa.BinOp)
+	if !ok {
+		return false
+	}
+	isLowBit := func(x, of ssa.Value) bool {
+		a, ok := x.(*ssa.BinOp)
+		if !ok || a.Op != token.AND {
+			return false
+		}
+		if k, ok := ConstInt(a.Y); ok && k == 1 && a.X == of {
+			return true
+		}
+		if k, ok := ConstInt(a.X); ok && k == 1 && a.Y == of {
+			return true
+		}
+		return false
+	}
+	switch b.Op {
+	case token.AND_NOT:
+		k, ok := ConstInt(b.Y)
+		return ok && k == 1
+	case token.AND:
+		for _, side := range []ssa.Value{b.X, b.Y} {
+			if c, ok := StripConv(side).(*ssa.Const); ok && c.Value != nil {
+				if u, exact := constant.Uint64Val(constant.ToInt(c.Value)); exact && u == ^uint64(1) {
+					return true
+				}
+				if i, exact := constant.Int64Val(constant.ToInt(c.Value)); exact && i == -2 {
+					return true
+				}
+			}
+		}
+	case token.XOR, token.SUB:
+		return isLowBit(b.Y, b.X)
+	}
+	return false
 }
 
 func (m *Model) buildMap(named *types.Named, iface string) *MapModel {
@@ -312,15 +380,26 @@ func (m *Model) buildMap(named *types.Named, iface string) *MapModel {
 	if mm.StateOwner == "" {
 		mm.StateOwner = mm.Name
 	}
+	// one-operation accessors of the map-level words (m.getTable(), m.setTable(t), m.resizeFlag()) are read as the
+	// atomic operation they perform
+	RegisterAccessorOwner(mm.Name)
+	RegisterAccessorOwner(mm.StateOwner)
 	// scan xsync functions for structural anchors
 	for _, f := range p.Funcs {
 		if f.Pkg != p.Xsync {
 			continue
 		}
+		sharedState := mm.StateOwner != mm.Name // resize bookkeeping in a struct of its own (possibly shared by both map types)
+		if AtomicAccessor(f) && !sharedState {
+			continue // seen at its call sites, as the operation it performs
+		}
 		Instrs(f, func(in ssa.Instruction) {
 			switch x := in.(type) {
 			case ssa.CallInstruction:
 				if op, addr, ok := AtomicOp(x); ok {
+					if sharedState && IsAccessorCall(x) {
+						return // the helper of the bookkeeping struct is the anchor (FlagCAS), its callers are found below
+					}
 					a := Addr(addr)
 					if a.Owner == mm.Name && op == "Load" && a.Field == mm.TableF && mm.TableF != "" {
 						if v, isV := in.(ssa.Value); isV {
@@ -613,7 +692,7 @@ func (m *Model) buildMap(named *types.Named, iface string) *MapModel {
 		Instrs(mm.Copy, func(in ssa.Instruction) {
 			if c, ok := in.(ssa.CallInstruction); ok {
 				cal := Callee(c)
-				if cal != nil && cal.Pkg == p.Xsync && !m.Acquire[cal] && !m.Release[cal] && cal.Signature.Results().Len() == 0 {
+				if _, isW := m.Wrappers[cal]; cal != nil && cal.Pkg == p.Xsync && !m.Acquire[cal] && !m.Release[cal] && !isW && cal.Signature.Results().Len() == 0 {
 					// the plain-append helper takes a bucket pointer
 					for _, prm := range cal.Params {
 						if strings.HasPrefix(namedOf(prm.Type()), "bucket") || structOf(prm.Type()) != nil {
@@ -641,13 +720,18 @@ func (m *Model) buildMap(named *types.Named, iface string) *MapModel {
 			bad("helper with role %s not found", n)
 		}
 	}
-	mm.LockKind = "mutex"
-	if mm.Core != nil {
-		Instrs(mm.Core, func(in ssa.Instruction) {
-			if c, ok := in.(ssa.CallInstruction); ok && m.Acquire[Callee(c)] {
-				mm.LockKind = "spin"
+	// the bucket lock is a sync.Mutex field of the bucket, or else a bit of one of its words taken by the spin helpers
+	mm.LockKind = "spin"
+	for _, bt := range mm.BucketT {
+		if obj := p.Xsync.Pkg.Scope().Lookup(bt); obj != nil {
+			if bs := structOf(obj.Type()); bs != nil {
+				for i := 0; i < bs.NumFields(); i++ {
+					if n, ok := bs.Field(i).Type().(*types.Named); ok && n.Obj().Pkg() != nil && n.Obj().Pkg().Path() == "sync" && n.Obj().Name() == "Mutex" {
+						mm.LockKind = "mutex"
+					}
+				}
 			}
-		})
+		}
 	}
 	// immutable entry type (MapOf): struct type converted to from a slot load in Load
 	if ld := mm.Methods["Load"]; ld != nil {
@@ -692,6 +776,115 @@ type LockWrapper struct {
 	Steps   []string // field steps from the parameter to the lock word
 	Class   string
 	Key     string
+	Handle  bool // the parameter is a lock handle (a struct value holding the pointer to the lock), see HandleCtor
+}
+
+// HandleCtor summarises a function that builds a lock handle: a struct value with a single pointer field that
+// addresses the lock word / mutex reached from parameter Param by Steps (lockOf(rootb), rootb.mutex()).
+type HandleCtor struct {
+	Param int
+	Steps []string
+	Key   string
+}
+
+// handleParamOf: v is the single (pointer) field of a struct-valued parameter: l.word for a value receiver l, read
+// directly or through the local the receiver is spilled into.
+func handleParamOf(v ssa.Value) *ssa.Parameter {
+	single := func(p *ssa.Parameter) *ssa.Parameter {
+		if hs := structOf(p.Type()); hs != nil && hs.NumFields() == 1 {
+			if _, isPtr := p.Type().Underlying().(*types.Pointer); !isPtr {
+				return p
+			}
+		}
+		return nil
+	}
+	switch x := v.(type) {
+	case *ssa.Field:
+		if hp, ok := x.X.(*ssa.Parameter); ok {
+			return single(hp)
+		}
+	case *ssa.UnOp:
+		fa, ok := x.X.(*ssa.FieldAddr)
+		if !ok {
+			return nil
+		}
+		cell, ok := fa.X.(*ssa.Alloc)
+		if !ok {
+			return nil
+		}
+		var src *ssa.Parameter
+		n := 0
+		for _, ref := range *cell.Referrers() {
+			if st, ok := ref.(*ssa.Store); ok && st.Addr == ssa.Value(cell) {
+				n++
+				src, _ = st.Val.(*ssa.Parameter)
+			}
+		}
+		if n == 1 && src != nil {
+			return single(src)
+		}
+	}
+	return nil
+}
+
+func (m *Model) findHandleCtors() {
+	m.HandleCtors = map[*ssa.Function]HandleCtor{}
+	for _, f := range m.P.Funcs {
+		if f.Pkg != m.P.Xsync || f.Parent() != nil || f.Blocks == nil || f.Signature.Results().Len() != 1 {
+			continue
+		}
+		st := structOf(f.Signature.Results().At(0).Type())
+		if st == nil || st.NumFields() != 1 || namedOf(f.Signature.Results().At(0).Type()) == "" {
+			continue
+		}
+		if _, isPtr := st.Field(0).Type().Underlying().(*types.Pointer); !isPtr {
+			continue
+		}
+		var rets []*ssa.Return
+		Instrs(f, func(in ssa.Instruction) {
+			if r, ok := in.(*ssa.Return); ok {
+				rets = append(rets, r)
+			}
+		})
+		if len(rets) != 1 {
+			continue
+		}
+		ld, ok := rets[0].Results[0].(*ssa.UnOp)
+		if !ok {
+			continue
+		}
+		cell, ok := ld.X.(*ssa.Alloc)
+		if !ok {
+			continue
+		}
+		var stored ssa.Value
+		n := 0
+		for _, ref := range *cell.Referrers() {
+			fa, ok := ref.(*ssa.FieldAddr)
+			if !ok {
+				continue
+			}
+			for _, r2 := range *fa.Referrers() {
+				if stv, ok := r2.(*ssa.Store); ok && stv.Addr == ssa.Value(fa) {
+					stored = stv.Val
+					n++
+				}
+			}
+		}
+		if n != 1 || stored == nil {
+			continue
+		}
+		a := Addr(stored)
+		prm, ok := a.Root.(*ssa.Parameter)
+		if !ok || len(a.Steps) == 0 {
+			continue
+		}
+		for i, q := range f.Params {
+			if q == prm {
+				m.HandleCtors[f] = HandleCtor{Param: i, Steps: a.Steps, Key: a.Key()}
+			}
+		}
+	}
 }
 
 // inferWrappers finds wrapper helpers to a fixpoint.
@@ -720,12 +913,19 @@ func (m *Model) inferWrappers() {
 				continue
 			}
 			uniform := true
+			handle := false
 			pi := -1
 			for _, ev := range evs {
 				if ev.Acquire != evs[0].Acquire || ev.Canon != evs[0].Canon {
 					uniform = false
 				}
 				prm, ok := ev.Root.(*ssa.Parameter)
+				if !ok {
+					// the lock pointer is the single field of a handle passed by value
+					if hp := handleParamOf(ev.Root); hp != nil && len(ev.steps) == 0 {
+						prm, ok, handle = hp, true, true
+					}
+				}
 				if !ok {
 					uniform = false
 					continue
@@ -759,7 +959,7 @@ func (m *Model) inferWrappers() {
 			if !ok {
 				continue
 			}
-			m.Wrappers[f] = LockWrapper{Acquire: evs[0].Acquire, Param: pi, Steps: evs[0].steps, Class: evs[0].Class, Key: evs[0].Key}
+			m.Wrappers[f] = LockWrapper{Acquire: evs[0].Acquire, Param: pi, Steps: evs[0].steps, Class: evs[0].Class, Key: evs[0].Key, Handle: handle}
 			changed = true
 		}
 		if !changed {
@@ -813,6 +1013,22 @@ func (m *Model) LockEventOfCall(c ssa.CallInstruction) *LockEvent {
 		a := Addr(args[0])
 		ev = &LockEvent{Acquire: false, Canon: a.Canon(), Key: a.Key(), Root: a.Root, AddrV: args[0], steps: a.Steps}
 	default:
+		if w, ok := m.Wrappers[cal]; ok && w.Param < len(args) && w.Handle {
+			// the handle is the result of a handle constructor: the lock is the one that constructor addresses
+			hcall, isCall := StripConv(args[w.Param]).(*ssa.Call)
+			if !isCall {
+				return nil
+			}
+			hc, isH := m.HandleCtors[Callee(hcall)]
+			if !isH || hc.Param >= len(hcall.Call.Args) {
+				return nil
+			}
+			base := hcall.Call.Args[hc.Param]
+			a := Addr(base)
+			a.Steps = append(append([]string{}, a.Steps...), hc.Steps...)
+			ev = &LockEvent{Acquire: w.Acquire, Canon: a.Canon(), Key: hc.Key, Root: a.Root, AddrV: base, Extra: hc.Steps, steps: a.Steps}
+			break
+		}
 		if w, ok := m.Wrappers[cal]; ok && w.Param < len(args) {
 			a := Addr(args[w.Param])
 			a.Steps = append(append([]string{}, a.Steps...), w.Steps...)
